@@ -35,6 +35,20 @@ def drop(d):
     sh(["git", "-C", "/repo", "worktree", "prune"])
 
 
+def apply_patch(d, patch):
+    """apply a kept change to a scratch worktree; when the repository moved on (fix: commits) and the context no longer matches exactly,
+    fall back to a fuzzy apply and refresh the stored patch so that it applies to the current HEAD"""
+    rc, out = sh(["git", "-C", str(d), "apply", str(patch)])
+    if rc == 0: return True, ""
+    rc, out2 = sh(f"cd {d} && patch -p1 -F3 --no-backup-if-mismatch < {patch}")
+    if rc == 0:
+        rc2, diff = sh(["git", "-C", str(d), "diff"])
+        if rc2 == 0 and diff.strip() and str(patch).startswith(str(SEEDED)):
+            pathlib.Path(patch).write_text(diff)
+        return True, "applied with fuzz; stored patch refreshed"
+    return False, out + out2
+
+
 def suite(d):
     env = dict(os.environ, PYTHONPATH=str(d))
     rc, out = sh(f"cd {d} && {PY} -m pytest -q -p no:cacheprovider --timeout=900 2>&1 | tail -3", env=env)
@@ -54,8 +68,8 @@ def cmd_import(src, sid):
     d = worktree("imp_" + sid)
     try:
         rc0, o0 = demo(d, src / "demo.py")
-        rc, out = sh(["git", "-C", str(d), "apply", str(src / "patch.diff")])
-        if rc != 0:
+        okp, out = apply_patch(d, src / "patch.diff")
+        if not okp:
             print(sid, "patch does not apply:", out[-300:]); return False
         s = suite(d)
         rc1, o1 = demo(d, src / "demo.py")
@@ -85,8 +99,9 @@ def cmd_run(ids, tier, props):
         plist = props or [meta["breaks_property"]]
         d = worktree("run_" + sid)
         try:
-            rc, out = sh(["git", "-C", str(d), "apply", str(SEEDED / sid / "patch.diff")])
-            assert rc == 0, out
+            okp, out = apply_patch(d, SEEDED / sid / "patch.diff")
+            if not okp:
+                print(sid, "patch does not apply any more:", out[-200:]); continue
             for p in plist:
                 t0 = time.time()
                 env = dict(os.environ, VERIF_REPO=str(d), VERIF_TIER=tier)
